@@ -23,8 +23,8 @@ EXHAUSTIVE = {"quick": True, "thorough": True}
 EXHAUSTIVE_PART = "all hex cells within N rings (quick N=14, thorough N=60) for both orientations; all cartesian cells within N rings"
 TIMEOUT = {"quick": 600, "thorough": 3600}
 FLOORS = {
-    "quick": {"hex.cell": 1000, "hex.neighbours": 1000, "cart.cell": 500, "bounds.cell": 200, "nest.loc": 100, "minrings": 1000, "reduce": 50, "changePitch": 20, "reduce.after-mutation": 100},
-    "thorough": {"hex.cell": 20000, "hex.neighbours": 20000, "cart.cell": 5000, "bounds.cell": 2000, "nest.loc": 1000, "minrings": 10000, "reduce": 500, "changePitch": 200, "reduce.after-mutation": 1000},
+    "quick": {"hex.cell": 1000, "hex.neighbours": 1000, "cart.cell": 500, "bounds.cell": 200, "nest.loc": 100, "minrings": 1000, "reduce": 50, "changePitch": 20, "reduce.after-mutation": 60, "nest.no-add": 40},
+    "thorough": {"hex.cell": 20000, "hex.neighbours": 20000, "cart.cell": 5000, "bounds.cell": 2000, "nest.loc": 1000, "minrings": 10000, "reduce": 500, "changePitch": 200, "reduce.after-mutation": 600, "nest.no-add": 300},
 }
 
 
@@ -530,6 +530,43 @@ def do_nest(spec, rec, rng):
                 except Exception as e:
                     rec.crash("nest", e, w)
                 rec.case(["nest", kind, round(pitch, 6), i, j, k, bool(coreOffset)], sample=w if n < 2 and k == 0 else None)
+            # indices add for axial-in-radial nesting ONLY: an axial grid inside an axial cell, and a radial grid inside a radial cell, keep
+            # their local indices (coordinates still add)
+            w = {"kind": kind, "pitch": pitch, "assem": [i, j], "zb": zb, "coreOffset": coreOffset}
+            try:
+                rec.hit("nest.no-add")
+                seg = composites.Composite("seg")
+                kk = rng.randrange(nz)
+                seg.spatialLocator = a.spatialGrid[0, 0, kk]
+                a.add(seg)
+                zs = inc_bounds(rng, rng.randint(2, 4))
+                seg.spatialGrid = grids.AxialGrid(bounds=(None, None, np.array(zs)), armiObject=seg)
+                m = rng.randrange(len(zs) - 1)
+                leaf = composites.Composite("leaf")
+                leaf.spatialLocator = seg.spatialGrid[0, 0, m]
+                seg.add(leaf)
+                ci = tuple(int(x) for x in leaf.spatialLocator.getCompleteIndices())
+                if ci != (0, 0, m):
+                    rec.violation("nest/indices-added/axial-in-axial", "complete indices %s of a cell %d of an axial grid sitting in axial cell %d; indices add for axial-in-radial only" % (ci, m, kk), w)
+                sub = composites.Composite("sub")
+                sub.spatialLocator = core.spatialGrid[i, j, 0] if False else core.spatialGrid[i + 7, j - 7, 0]
+                core.add(sub)
+                sub.spatialGrid = grids.HexGrid.fromPitch(pitch / 7, numRings=2, armiObject=sub) if kind != "cart" else grids.CartesianGrid.fromRectangle(pitch / 7, pitch / 7, numRings=2, armiObject=sub)
+                p_, q_ = rng.randint(-2, 2), rng.randint(-2, 2)
+                leaf2 = composites.Composite("leaf2")
+                leaf2.spatialLocator = sub.spatialGrid[p_, q_, 0]
+                sub.add(leaf2)
+                ci = tuple(int(x) for x in leaf2.spatialLocator.getCompleteIndices())
+                if ci != (p_, q_, 0):
+                    rec.violation("nest/indices-added/radial-in-radial", "complete indices %s of cell %s of a radial grid sitting in radial cell %s" % (ci, (p_, q_), (i + 7, j - 7)), w)
+                sx, sy = cxy(i + 7, j - 7)
+                lx, ly = (hex_xy(p_, q_, pitch / 7, False) if kind != "cart" else (p_ * pitch / 7, q_ * pitch / 7))
+                gc2 = leaf2.spatialLocator.getGlobalCoordinates()
+                if not vclose(gc2, (sx + ox + lx, sy + oy + ly, oz), pitch * 20):
+                    rec.violation("nest/global-coordinates/radial-in-radial", "global coords %s expected %s" % (list(gc2), (sx + ox + lx, sy + oy + ly, oz)), w)
+                core.remove(sub)
+            except Exception as e:
+                rec.crash("nest-no-add", e, w)
 
 
 # ----------------------------------------------------------------------------- minimum rings
